@@ -36,6 +36,7 @@ type leaseInst struct {
 	fault                                 []string // per lease call: "" | "refuse" | "error"; beyond the list: ""
 	provLat                               int64    // latency of CreatePartitions (ns)
 	provErr                               bool     // Provision (container) fails
+	partErr                               bool     // creating the partition blobs fails (v1: error returned, v2: error event); the resource is usable all the same
 	slowListener                          int64    // a listener of this instance takes this long (ns) over every `allocated` event
 }
 
@@ -76,7 +77,7 @@ func (s leaseScn) key() string {
 			}
 			f = strings.Join(fs, "+")
 		}
-		fmt.Fprintf(&sb, "%d:%d:%d:%d:%s:%s:%s:%d:%d", in.shared, in.reserved, in.factor, in.maxInterval, i64s(in.pre), i64s(in.post), f, in.provLat, b01(in.provErr))
+		fmt.Fprintf(&sb, "%d:%d:%d:%d:%s:%s:%s:%d:%d", in.shared, in.reserved, in.factor, in.maxInterval, i64s(in.pre), i64s(in.post), f, in.provLat, b01(in.provErr)+2*b01(in.partErr))
 		if in.slowListener > 0 {
 			fmt.Fprintf(&sb, ":%d", in.slowListener)
 		}
@@ -113,7 +114,7 @@ func leaseFromKV(kv map[string]string) leaseScn {
 			continue
 		}
 		in := leaseInst{shared: atou(p[0]), reserved: atou(p[1]), factor: atou(p[2]), maxInterval: atou(p[3]), pre: parseList(p[4]), post: parseList(p[5]),
-			provLat: i64(p[7]), provErr: p[8] == "1"}
+			provLat: i64(p[7]), provErr: p[8] == "1", partErr: p[8] == "2"}
 		if len(p) == 10 {
 			in.slowListener = i64(p[9])
 		}
@@ -227,6 +228,9 @@ type fakeLM1 struct{ *fakeLM }
 func (m fakeLM1) Provision(ctx context.Context) error { return m.fakeLM.Provision(ctx) }
 func (m fakeLM1) CreatePartitions(ctx context.Context, count int) error {
 	m.fakeLM.createPartitions(ctx, count)
+	if m.scn.insts[m.inst].partErr {
+		return fmt.Errorf("a blob could not be created")
+	}
 	return nil
 }
 func (m fakeLM1) LeasePartition(ctx context.Context, id string, index uint32) time.Duration {
@@ -396,7 +400,8 @@ func runLease(s leaseScn) (line string) {
 					if s.gen == 1 {
 						err = hs[inst].r1.Provision(hs[inst].ctx)
 						lg.add("act:V:%d:%s", inst, errName2(err))
-						if err == nil {
+						if err == nil || s.insts[inst].partErr {
+							// (a caller may go on after a blob-creation error: the resource is provisioned all the same)
 							err = hs[inst].r1.Start(hs[inst].ctx)
 						}
 					} else {
@@ -656,6 +661,8 @@ func leaseRandom(r *rng) leaseScn {
 		}
 		if r.chance(1, 15) {
 			in.provErr = true
+		} else if s.gen == 1 && r.chance(1, 12) {
+			in.partErr = true
 		}
 		if r.chance(1, 12) {
 			in.slowListener = int64(r.pick(2000, 5000, 16000)) * ms
